@@ -74,8 +74,8 @@ func vpH_tv_validate_permutation() {
 		},
 	}
 	tests := []struct {
-		p    MatrixPermutation
-		ok   bool
+		p  MatrixPermutation
+		ok bool
 	}{
 		{MatrixPermutation{"shape": "circle", "color": "green"}, true},
 		{MatrixPermutation{"shape": "triangle", "color": "green"}, true},
